@@ -348,6 +348,11 @@ def main(argv=None) -> int:
                     known_hits[sig]["count"] += 1
                 else:
                     violations.append(cand)
+        if r["held"] + r.get("violating_paths", 0) == 0 and not r["exhausted"]:
+            inconclusive.append(f"{cube.name}: no path completed within the budget (paths={r['paths']}, ignored={r['ignored']}, "
+                                f"unknown={r['unknown']}, stop={r['stop_reason']}): nothing decided")
+            r["confirmed"] = False
+            continue
         if r["held"] + r.get("violating_paths", 0) == 0:
             harness_errors.append(f"{cube.name}: no path reached the oracle (paths={r['paths']}, ignored={r['ignored']}, "
                                   f"unknown={r['unknown']}): the cube is vacuous")
